@@ -349,12 +349,12 @@ def hostCall (m : M) (name : String) (args : List SVal) (via : Bool := false) : 
             else vals m ((List.range (j - i + 1).toNat).map fun (d : Nat) => (m.tget tid).get (.int (i + (d : Int)))))
        | _, _ => badArg
      | _ => badArg)
-  | "rawget" => (match a0 with | .tbl tid => val1 m (m.rawget tid a1) | _ => badArg)
+  | "rawget" => (match a0 with | .tbl tid => if args.length < 2 then badArg else val1 m (m.rawget tid a1) | _ => badArg)
   | "rawset" =>
     (match a0, a1.toKey? with
-     | .tbl tid, some k => val1 (m.rawsetK tid k a2) a0
+     | .tbl tid, some k => if args.length < 3 then badArg else val1 (m.rawsetK tid k a2) a0
      | _, _ => badArg)
-  | "rawequal" => val1 m (.bool (a0.rawEq a1))
+  | "rawequal" => if args.length < 2 then badArg else val1 m (.bool (a0.rawEq a1))   -- luaL_checkany(L, 1), (L, 2)
   | "next" =>
     (match a0 with
      | .tbl tid =>
@@ -475,7 +475,7 @@ def hostCall (m : M) (name : String) (args : List SVal) (via : Bool := false) : 
   | "coroutine.yield" =>
     if m.cur = 0 then fault m "attempt to yield from outside a coroutine"
     else if m.kont.any (fun f => match f with
-        | .pcallB .. | .xpcallB .. | .xpcallH | .ret1 | .retBool _ | .forInCall .. | .discard => false || (match f with | .discard => false | _ => true)
+        | .pcallB .. | .xpcallB .. | .xpcallH .. | .ret1 | .retBool _ | .forInCall .. | .discard => false || (match f with | .discard => false | _ => true)
         | _ => false)
     then unspec "yield across pcall / metamethod / iterator (an error in Lua 5.1)"
     else switchToParent m .suspended m.kont (fun wrap => if wrap then .vals args else .vals (.bool true :: args))
